@@ -22,7 +22,7 @@ META = dict(
     design='3/C07')
 
 Q = 'MC_RingQueues'
-C = 'RingChannel'
+C = 'MC_RingChannel'
 # (module, cfg, timeout)
 MC_QUICK = [(Q, 'MC_RingQueues_mpmc_pp21.cfg', 900), (Q, 'MC_RingQueues_mpmc_sr21.cfg', 900), (Q, 'MC_RingQueues_mpmc_wrap.cfg', 900),
             (Q, 'MC_RingQueues_batch21.cfg', 900), (Q, 'MC_RingQueues_batch_wrap.cfg', 900), (Q, 'MC_RingQueues_spsc.cfg', 900),
@@ -57,25 +57,46 @@ def _tamper(execs):
     return None
 
 
+def _mc_parallel(ctx, runs, broken, par=4, workers=4):
+    """model checking of all configurations, `par` TLC processes at a time.  A violated property of a passing configuration is a
+    violation of C07 in the specification; a broken variant that is not caught makes the check fail as vacuous."""
+    from concurrent.futures import ThreadPoolExecutor
+    jobs = [(m, c, t, None) for m, c, t in runs] + [(m, c, 900, inv) for m, c, inv in broken]
+    # largest first, so that the long runs overlap with the short ones
+    def work(j):
+        m, c, t, inv = j
+        return j, ctx.mc(m, c, timeout=t, workers=workers, count=False)
+    ok, caught = True, {}
+    with ThreadPoolExecutor(max_workers=par) as ex:
+        for (m, c, t, inv), r in ex.map(work, jobs):
+            if inv is None:
+                ctx.states += r['distinct']
+                ctx.transitions += r['generated']
+                if r['rc'] != 0:
+                    rp = ctx.save_replay(f'mc_{c}.txt', r['out'][-8000:])
+                    ctx.violation(f'specification {m}/{c} violates {r["inv_violated"] or ("deadlock" if r["deadlock"] else "a property")}', rp)
+                    ok = False
+            else:
+                caught[c] = r['inv_violated']
+                if inv not in r['inv_violated']:
+                    raise vtlib.InfraError(f'{m}/{c}: the broken variant is not detected ({r["inv_violated"]}): vacuous model')
+    ctx.extra['broken_variants_caught'] = caught
+    return ok
+
+
 def run(ctx):
     quick = ctx.tier == 'quick'
     ctx.samples.append({'constants_queues': open(f'{vtlib.SPEC}/MC_RingQueues_mpmc_pp21.cfg').read(),
                         'constants_channel': open(f'{vtlib.SPEC}/MC_RingChannel_quick.cfg').read()})
     if not os.environ.get('VERIF_SKIP_MC'):
-        if not synccheck.mc_all(ctx, MC_QUICK if quick else MC_THOROUGH):
+        broken = BROKEN[:1] + BROKEN[3:4] if quick else BROKEN
+        if not _mc_parallel(ctx, MC_QUICK if quick else MC_THOROUGH, broken):
             return ctx.finish()
-        caught = {}
-        for mod, cfg, inv in (BROKEN[:1] + BROKEN[3:4] if quick else BROKEN):
-            r = ctx.mc(mod, cfg, timeout=900, count=False)
-            caught[cfg] = r['inv_violated']
-            if inv not in r['inv_violated']:
-                raise vtlib.InfraError(f'{mod}/{cfg}: the broken variant is not detected ({r["inv_violated"]}): vacuous model')
-        ctx.extra['broken_variants_caught'] = caught
     ctx.build_lib()
     h = ctx.build_harness('h_ring')
     modes = MODES_Q if quick else MODES_T
     seeds = [ctx.seed] if quick else [ctx.seed, ctx.seed + 1000]
-    kinds, styles, n_exec, settles, tampered = {}, {}, 0, 0, None
+    kinds, styles, settles, tampered, allrows = {}, {}, 0, None, []
     for prim, execs in modes:
         for si, sd in enumerate(seeds):
             n = execs // len(seeds)
@@ -89,6 +110,7 @@ def run(ctx):
                 raise vtlib.InfraError(f'h_ring --prim {prim} recorded nothing')
             for r in rows:
                 if r['e'] == 'Reset':
+                    r['seed'] = sd
                     k = f'{r["kind"]}/{r["style"]}/cap{r["cap"]}' + ('/flex' if r['flex'] else '') + ('/os' if r['os'] else '/photon')
                     styles[k] = styles.get(k, 0) + 1
                 elif r['e'] in ('Inv', 'Resp'):
@@ -97,14 +119,18 @@ def run(ctx):
                 else:
                     kinds[r['e']] = kinds.get(r['e'], 0) + 1
                     settles += r['e'] == 'Settle'
-            acc, rejs, n_e = tracecheck.validate(ctx, SPEC, CFG, rows, tagbase=f'ring_{prim}_{sd}')
-            n_exec += n_e
-            tracecheck.report(ctx, rejs, f'{prim} seed {sd}', name=f'ring_{prim}_{sd}')
+            allrows += rows
             ex = tracecheck.split_execs(rows)
             if len(ctx.samples) < 5 and si == 0:
                 ctx.samples.append({'mode': prim, 'recorded_execution': ex[min(2, len(ex) - 1)][:40]})
             if tampered is None and prim == 'mpmc':
                 tampered = _tamper(ex)
+    # all recorded executions are judged in one parallel pass (an execution is self-contained: it starts with its Reset)
+    acc, rejs, n_exec = tracecheck.validate(ctx, SPEC, CFG, allrows, tagbase='ring', par=8, max_rej=4)
+    for rj in rejs:
+        rs = rj['exec'][0]
+        tracecheck.report(ctx, [rj], f'h_ring --prim {rs.get("prim")} --seed {rs.get("seed")} execution {rs.get("ex")} ({rs.get("kind")}/{rs.get("style")} cap {rs.get("cap")})',
+                          name=f'ring_{rs.get("prim")}_{rs.get("seed")}_{rs.get("ex")}')
     ctx.extra['executions_recorded'] = n_exec
     ctx.extra['event_kinds'] = kinds
     ctx.extra['configurations_exercised'] = styles
